@@ -40,6 +40,7 @@ class SinkAnalysis:
         self.escapers = {}  # body path -> (identity CS, dropped CS, problems)
         self.grammar, self.gmod, self.gfile = load_parser_module(run)
         self._field_cache = {}
+        self._item_origin = {}
         self._fn_cache = {}
         self.stats = {"sinks": 0, "string_sinks": 0, "by_kind": {}}
 
@@ -289,7 +290,7 @@ class SinkAnalysis:
 
     def safe(self, path, e, sink, depth=0):
         """(ok, reason)"""
-        if depth > 12:
+        if depth > 30:
             return False, "analysis depth exceeded"
         e = strip(e)
         k = e[0]
@@ -338,11 +339,32 @@ class SinkAnalysis:
             ty = self.param_type(path, e)
             if ty and NUMERIC.match(ty):
                 return True, "numeric/bool by type (%s)" % ty
+            if path in self._item_origin and e[1] == 2:
+                comp = [f for f in e[2] if f.isdigit()]
+                if comp:
+                    return self.item_component_safe(self._item_origin[path], comp[0], sink, depth + 1)
             fields = [f for f in e[2] if not f.startswith("@") and f != "[]"]
             b = self.prog.bodies[path]
             base_ty = b["locals"][e[1]]["ty"].lstrip("&").replace("mut ", "").strip().split("<")[0]
             if fields and base_ty in self.prog.adts and self.prog.adts[base_ty]["crate"] in self.prog.crates:
                 return self.field_safe(base_ty, fields, sink, depth + 1)
+            # a parameter of a function that is not visible outside its crate: harmless if every caller passes a
+            # harmless value (e.g. the css of the legend, escaped where it is built)
+            # (public helpers are analysed as they are called from the conversion entry points; the parameters of
+            # the entry points themselves are the input)
+            from .common import LIB_ENTRY
+            is_entry = path in LIB_ENTRY
+            if not fields and not is_entry and "{closure" not in path and 1 <= e[1] <= b["argc"]:
+                callers = list(self.prog.callers(path))
+                if callers:
+                    for cp, cbid, ct in callers:
+                        if e[1] - 1 >= len(ct["args"]):
+                            return False, "caller %s passes fewer arguments" % short(cp)
+                        ce = Expr(self.prog, cp).operand(ct["args"][e[1] - 1])
+                        ok, why = self.safe(cp, ce, sink, depth + 1)
+                        if not ok:
+                            return False, "argument %d of %s, passed by %s: %s" % (e[1], short(path), short(cp), why)
+                    return True, "every caller (%d) passes a harmless value" % len(callers)
             return False, "input-derived value `%s` (%s) reaches the sink without escaping" % (expr_str(e), ty or b["locals"][e[1]]["ty"])
         if k == "call":
             name = e[1]
@@ -372,6 +394,15 @@ class SinkAnalysis:
             if re.search(r"Iterator::map$", name) and len(args) == 2:
                 cl, caps = closure_of(args[1])
                 if cl and cl in self.prog.bodies:
+                    # what does the closure's argument range over?  (elements of a field of a workspace type)
+                    src = strip(args[0])
+                    while src[0] == "call" and src[2] and re.search(r"::(iter|into_iter|deref|rev|cloned|copied)$", src[1]):
+                        src = strip(src[2][0])
+                    if src[0] == "param" and src[2]:
+                        bty = self.prog.bodies[path]["locals"][src[1]]["ty"].lstrip("&").replace("mut ", "").strip().split("<")[0]
+                        fl = [f for f in src[2] if not f.startswith("@") and f != "[]"]
+                        if fl and bty in self.prog.adts:
+                            self._item_origin[cl] = (bty, fl[0])
                     for r in Expr(self.prog, cl).returns():
                         ok, why = self.safe(cl, r, sink, depth + 1)
                         if not ok:
@@ -535,6 +566,80 @@ class SinkAnalysis:
                                     out.append((p, ("mutated_by", Program.callee_name(use), margs, 0), where(use)))
         self._field_cache[key] = out
         return out
+
+    def item_component_safe(self, origin, comp, sink, depth):
+        """component `comp` of the tuples stored in adt.field: harmless when every writer stores the result of a
+        pom grammar whose list items are pairs and whose `comp`-th component has a harmless output alphabet"""
+        adt, field = origin
+        srcs = [x for x in self.field_sources(adt, field) if not re.search(r" as core::clone::Clone>::clone$", x[0])]
+        if not srcs or self.grammar is None:
+            return False, "elements of %s.%s: no writer found" % (short(adt), field)
+        n = 0
+        for p, e, w in srcs:
+            if mentions(e, lambda z: z[0] == "call" and re.search(r"Vec::<T>::new$|Default>::default$", z[1])) and not mentions(e, lambda z: z[0] == "param"):
+                continue
+            # the workspace function whose result is stored, and the grammar it runs (direct calls only)
+            fns = []
+            self._collect_writer_fns(p, e, fns, 0)
+            gnames = set()
+            for f in fns:
+                seen, work = set(), [f]
+                while work:
+                    q = work.pop()
+                    if q in seen or q not in self.prog.bodies:
+                        continue
+                    seen.add(q)
+                    qex = None
+                    for _, t in self.prog.calls(q):
+                        nm = Program.callee_name(t)
+                        if re.search(r"pom::parser::Parser::<'a, I, O>::parse$", nm):
+                            qex = qex or Expr(self.prog, q)
+                            ge = strip(qex.operand(t["args"][0]))
+                            if ge[0] == "call":
+                                gnames.add(ge[1].split("::")[-1])
+                        elif nm in self.prog.bodies and self.prog.bodies[nm].get("crate") == self.prog.bodies[q].get("crate"):
+                            work.append(nm)
+            if not gnames:
+                return False, "%s.%s is written in %s with a value that is not the result of a known grammar" % (short(adt), field, short(p))
+            for gname in gnames:
+                try:
+                    pair = self._list_item_pair(self.grammar.tree(gname))
+                    if pair is None:
+                        return False, "grammar %s does not yield a list of pairs" % gname
+                    cs = self.grammar.output_charset(pair[int(comp)])
+                except (GrammarError, Unknown, IndexError, ValueError) as ex:
+                    return False, "grammar %s not interpretable: %s" % (gname, ex)
+                leak = cs & FORBIDDEN[sink]
+                if leak:
+                    return False, "component %s of the entries of grammar %s can contain %s" % (comp, gname, leak.describe(4))
+                n += 1
+        if not n:
+            return False, "elements of %s.%s: no grammar-produced writer" % (short(adt), field)
+        return True, "component %s of %s.%s entries: grammar output alphabet excludes the sink's forbidden characters" % (comp, short(adt), field)
+
+    def _collect_writer_fns(self, p, e, out, depth):
+        """workspace functions whose results flow into e (through parameters of p: the callers' arguments)"""
+        if depth > 6:
+            return
+        mentions(e, lambda z: z[0] == "call" and z[1] in self.prog.bodies and out.append(z[1]) and False)
+        params = set()
+        mentions(e, lambda z: z[0] == "param" and not z[2] and params.add(z[1]) and False)
+        for i in params:
+            for cp, cbid, ct in self.prog.callers(p):
+                if 1 <= i <= len(ct["args"]):
+                    self._collect_writer_fns(cp, Expr(self.prog, cp).operand(ct["args"][i - 1]), out, depth + 1)
+
+    def _list_item_pair(self, t):
+        if not isinstance(t, tuple):
+            return None
+        if t[0] == "list" and isinstance(t[1], tuple) and t[1][0] == "seq" and t[1][3] == "both":
+            return (t[1][1], t[1][2])
+        for x in t[1:]:
+            if isinstance(x, tuple):
+                r = self._list_item_pair(x)
+                if r:
+                    return r
+        return None
 
     def field_safe(self, adt, fields, sink, depth):
         field = fields[0]
